@@ -271,8 +271,8 @@ def _written_spec(pipe, mb, cont):
 
 WRITE_INPUT = []
 for _pipe in PIPE_ENUM:
-    for _mb, _cont in ((False, False), (True, True)):
-        _n = f"ghedesigner.manager:GHEManager.write_input_file#{_pipe}-{'with' if _mb else 'without'}-optional-keys"
+    for _mb, _cont in ((False, False), (True, True)) + (((False, True), (True, False)) if _pipe == "SINGLEUTUBE" else ()):
+        _n = f"ghedesigner.manager:GHEManager.write_input_file#{_pipe}-{'with' if _mb else 'without'}-cap-{'with' if _cont else 'without'}-continue-flag"
         contract("ghedesigner.manager:GHEManager.write_input_file", dict(self=_mgr_shape(_pipe, _mb, _cont), output_file_path=OpaqueOf("path"), throw=Const(True)), name=_n,
                  ensures=[("returns-zero", lambda E: E.result == 0)] + _written_spec(_pipe, _mb, _cont), returns=Int).applies = lambda env: False
         WRITE_INPUT.append(_n)
